@@ -209,13 +209,23 @@ def oracle(ctx, extra):
                 doc, kind = hostile(r), "hostile"
             elif k < 0.75:
                 doc, kind = surrogate(r), "surrogate"
-            elif k < 0.87:
+            elif k < 0.85:
                 doc, kind = gen_docs.noise(r, 1, 200), "noise"
-            else:
+            elif k < 0.92:
                 doc, kind = gen_docs.interaction_doc(r), "interaction"
-            dist[kind] += 1
+            else:
+                doc, kind = gen_docs.edge_doc(r), "edge"
+            need = []
+            if i % 10 == 9:
+                # a document that really uses one plugin's constructs, under configurations that have the plugin
+                need, doc = gen_docs.showcase_for(r)
+                kind = "showcase"
+            dist[kind] = dist.get(kind, 0) + 1
             for _ in range(2):
-                check(w, sample_cfg(r), doc, fails, limit)
+                cfg = sample_cfg(r)
+                if kind in ("edge", "showcase") and cfg.get("plugins") is not None and "api" not in cfg and cfg.get("renderer") in ("html", "ast"):
+                    cfg["plugins"] = list(dict.fromkeys((need or ["abbr", "footnotes"]) + cfg["plugins"]))
+                check(w, cfg, doc, fails, limit)
                 n += 1
             if i % 25 == 0:
                 # conversion with a file context (Markdown.read): include directives with every kind of target and encoding
@@ -236,7 +246,7 @@ def oracle(ctx, extra):
                     "emphasis, brackets, alternating link/image, code ticks, angle brackets, indentation staircases of block markers, RST/colon/backtick directives, "
                     "formatting plugins, repeated units of every inline plugin syntax (up to 3200 adjacent tokens), def lists and tables; depth/length 8-400), 12% generated documents with hostile code "
                     "points inserted (controls, line/paragraph separators, BOM, non-characters, combining, bidi, astral), 3% lone "
-                    "surrogates, 12% noise up to 200 tokens, 13% interrupt/lazy fragments; every 25th iteration a document of include directives converted with a file context (Markdown.read; text, Markdown, HTML, empty, BOM, Latin-1, UTF-16, nested, missing and self targets x valid, unknown and mismatching encodings); each document under 2 sampled "
+                    "surrogates, 10% noise up to 200 tokens, 7% interrupt/lazy fragments, 8% edge documents (wide white space at the borders of block text; reference, footnote and abbreviation definitions with degenerate keys: white space only, empty, regex metacharacters), every 10th a showcase of one plugin's constructs under configurations that have the plugin; every 25th iteration a document of include directives converted with a file context (Markdown.read; text, Markdown, HTML, empty, BOM, Latin-1, UTF-16, nested, missing and self targets x valid, unknown and mismatching encodings); each document under 2 sampled "
                     "configurations (renderer html/ast/rst/markdown, escape, hard_wrap, random plugin subset incl. speedup, "
                     "directive style, add_toc_hook, mistune.html, mistune.markdown()) in one long-lived worker with a per-document wall limit",
             "samples": [json.dumps(pumps(ctx.rng('s')))[:120], json.dumps(sample_cfg(ctx.rng('t')))]}
